@@ -147,7 +147,7 @@ Definition c12_check (c : c12case) : bool :=
                   verdict_eqb (validate_obj re_frag_ok re_frag_match (defined_numbers env) obs fvs) vd
                   && spec_agree (rule_objb re_frag_match env ds fvs) g end) msgs
   | C12Oneof env ds obs msgs =>
-      match write_members env ds with
+      match compile_members re_frag_ok env ds with
       | Ok os => list_eqb (fun x y => fout_eqb (c12_proj x) (c12_proj y)) os obs
       | _ => false
       end &&
